@@ -17,8 +17,8 @@ type cacheState struct {
 func openDB(p kvdb.DBProducer, c *cacheState, name string) (kvdb.Store, error) {
 	{ // protected by mutex
 		c.mu.Lock()
-		c.notDropped[name] = true
 		if store, ok := c.opened[name]; ok {
+			c.notDropped[name] = true
 			c.refCounter[name]++
 			c.mu.Unlock()
 			return store, nil
@@ -74,6 +74,7 @@ func openDB(p kvdb.DBProducer, c *cacheState, name string) (kvdb.Store, error) {
 
 	{ // protected by mutex
 		c.mu.Lock()
+		c.notDropped[name] = true
 		c.opened[name] = store
 		c.refCounter[name]++
 		c.mu.Unlock()
